@@ -24,7 +24,28 @@
 //! true or `append` succeeds, the GROWN `(shape, strides)` is sent as an `ov` request and must
 //! be accepted by `may_have_internal_overlap` and injective by brute force: PROPFAIL
 //! `capacity expansion accepted …` otherwise (Lean: `c08_expansion_checks_grown_layout`).
+//!
+//! Storage / constructor / conversion family (section (e), clause "accepted … for mutable
+//! tensors … or explicit construction"): every explicit constructor (`from_data_with_strides`,
+//! `from_slice_with_strides`, `from_storage_and_layout`; dynamic and `NdLayout<2>` variants)
+//! over every storage type (`Vec`, `&[T]`, `&mut [T]`, `Cow` borrowed / owned, `Arc<Vec>`),
+//! followed by chains of storage-converting methods (`into_cow`, `into_arc`, `into_owned`,
+//! `to_tensor`, `as_cow`, `clone`, `to_contiguous`, `reshaped`, `into_shape`,
+//! `into_contiguous`).  Request `mk <ctor> <kind> <len> <size,stride …> | <conv> | …`, answer
+//! `rej` or `ok <kind> <size,stride …>` (compared with `Model/OverlapCtor.lean`).  Oracles:
+//! whatever ends up on MUTABLE storage must pass the overlap check and be injective by brute
+//! force; a pair `from_data_with_strides` accepts must not alias (any storage).  The `cov`
+//! request lists every tensor-returning method found in `$VERIF_REPO/rten-tensor/src/tensor.rs`;
+//! the model answers `all-classified` only if each is in its `apiTable`.
 use hcommon::{Args, Out, Rng};
+use rten_tensor::layout::{MutLayout, OverlapPolicy};
+use rten_tensor::storage::{CowData, IntoStorage};
+use rten_tensor::{
+    ArcNdTensor, ArcTensor, CowNdTensor, CowTensor, DynLayout, NdLayout, NdTensor, NdTensorView,
+    NdTensorViewMut, TensorBase, TensorViewMut,
+};
+use std::borrow::Cow;
+use std::sync::Arc;
 use rten_tensor::prelude::*;
 use rten_tensor::verif::{is_contiguous, may_have_internal_overlap};
 use rten_tensor::{SliceItem, SliceRange, Tensor, TensorView};
@@ -466,6 +487,356 @@ fn expansion_case(out: &mut Out, rng: &mut Rng, thorough: bool) {
     }
 }
 
+// ---------------------------------------------------------------- storage × ctor × conversion
+
+enum AnyT<'a> {
+    Vec(Tensor<u32>),
+    View(TensorView<'a, u32>),
+    ViewMut(TensorViewMut<'a, u32>),
+    /// `true` = `CowData::Owned`
+    Cow(CowTensor<'a, u32>, bool),
+    Arc(ArcTensor<u32>),
+}
+
+impl AnyT<'_> {
+    fn kind(&self) -> &'static str {
+        match self {
+            AnyT::Vec(_) => "vec",
+            AnyT::View(_) => "view",
+            AnyT::ViewMut(_) => "viewmut",
+            AnyT::Cow(_, false) => "cowb",
+            AnyT::Cow(_, true) => "cowo",
+            AnyT::Arc(_) => "arc",
+        }
+    }
+    fn mutable(&self) -> bool {
+        matches!(self, AnyT::Vec(_) | AnyT::ViewMut(_) | AnyT::Arc(_))
+    }
+    fn dims(&self) -> (Vec<usize>, Vec<usize>) {
+        match self {
+            AnyT::Vec(t) => (t.shape().to_vec(), t.strides().to_vec()),
+            AnyT::View(t) => (t.shape().to_vec(), t.strides().to_vec()),
+            AnyT::ViewMut(t) => (t.shape().to_vec(), t.strides().to_vec()),
+            AnyT::Cow(t, _) => (t.shape().to_vec(), t.strides().to_vec()),
+            AnyT::Arc(t) => (t.shape().to_vec(), t.strides().to_vec()),
+        }
+    }
+}
+
+const KINDS: [&str; 6] = ["vec", "view", "viewmut", "cowb", "cowo", "arc"];
+
+/// Run one explicit constructor.  `Err(())` = rejected (`Err(..)` or panic).
+fn build<'a>(
+    ctor: &str,
+    kind: &str,
+    nd: bool,
+    shape: &[usize],
+    strides: &[usize],
+    data: Vec<u32>,
+    buf: &'a [u32],
+    bufm: &'a mut [u32],
+) -> Result<AnyT<'a>, ()> {
+    let len = data.len();
+    let (sh2, st2) = if nd { ([shape[0], shape[1]], [strides[0], strides[1]]) } else { ([0, 0], [0, 0]) };
+    let r = hcommon::catch(move || -> Result<AnyT<'a>, ()> {
+        macro_rules! ok {
+            ($e:expr) => {
+                $e.map_err(|_| ())?
+            };
+        }
+        Ok(match (ctor, kind, nd) {
+            // ---- from_data_with_strides, dynamic rank
+            ("fdws", "vec", false) => AnyT::Vec(ok!(Tensor::from_data_with_strides(shape, data, strides))),
+            ("fdws", "view", false) => AnyT::View(ok!(TensorView::from_data_with_strides(shape, &buf[..len], strides))),
+            ("fdws", "viewmut", false) => {
+                AnyT::ViewMut(ok!(TensorViewMut::from_data_with_strides(shape, &mut bufm[..len], strides)))
+            }
+            ("fdws", "cowb", false) => {
+                AnyT::Cow(ok!(CowTensor::from_data_with_strides(shape, Cow::Borrowed(&buf[..len]), strides)), false)
+            }
+            ("fdws", "cowo", false) => {
+                let c: Cow<'a, [u32]> = Cow::Owned(data);
+                AnyT::Cow(ok!(CowTensor::from_data_with_strides(shape, c, strides)), true)
+            }
+            ("fdws", "arc", false) => AnyT::Arc(ok!(ArcTensor::from_data_with_strides(shape, Arc::new(data), strides))),
+            // ---- from_data_with_strides, NdLayout<2>
+            ("fdws", "vec", true) => AnyT::Vec(ok!(NdTensor::<u32, 2>::from_data_with_strides(sh2, data, st2)).into_dyn()),
+            ("fdws", "view", true) => {
+                AnyT::View(ok!(NdTensorView::<u32, 2>::from_data_with_strides(sh2, &buf[..len], st2)).into_dyn())
+            }
+            ("fdws", "viewmut", true) => {
+                AnyT::ViewMut(ok!(NdTensorViewMut::<u32, 2>::from_data_with_strides(sh2, &mut bufm[..len], st2)).into_dyn())
+            }
+            ("fdws", "cowb", true) => AnyT::Cow(
+                ok!(CowNdTensor::<u32, 2>::from_data_with_strides(sh2, Cow::Borrowed(&buf[..len]), st2)).into_dyn(),
+                false,
+            ),
+            ("fdws", "cowo", true) => {
+                let c: Cow<'a, [u32]> = Cow::Owned(data);
+                AnyT::Cow(ok!(CowNdTensor::<u32, 2>::from_data_with_strides(sh2, c, st2)).into_dyn(), true)
+            }
+            ("fdws", "arc", true) => {
+                AnyT::Arc(ok!(ArcNdTensor::<u32, 2>::from_data_with_strides(sh2, Arc::new(data), st2)).into_dyn())
+            }
+            // ---- from_slice_with_strides (views only)
+            ("fsws", "view", false) => AnyT::View(ok!(TensorView::from_slice_with_strides(shape, &buf[..len], strides))),
+            ("fsws", "view", true) => {
+                AnyT::View(ok!(NdTensorView::<u32, 2>::from_slice_with_strides(sh2, &buf[..len], st2)).into_dyn())
+            }
+            // ---- from_storage_and_layout (layout built with AllowOverlap)
+            ("fsl", k, false) => {
+                let l = ok!(DynLayout::from_shape_and_strides(shape, strides, OverlapPolicy::AllowOverlap));
+                match k {
+                    "vec" => AnyT::Vec(TensorBase::from_storage_and_layout(data, l)),
+                    "view" => AnyT::View(TensorBase::from_storage_and_layout((&buf[..len]).into_storage(), l)),
+                    "viewmut" => AnyT::ViewMut(TensorBase::from_storage_and_layout((&mut bufm[..len]).into_storage(), l)),
+                    "cowb" => AnyT::Cow(
+                        TensorBase::from_storage_and_layout(CowData::Borrowed((&buf[..len]).into_storage()), l),
+                        false,
+                    ),
+                    "cowo" => AnyT::Cow(TensorBase::from_storage_and_layout(CowData::Owned(data), l), true),
+                    _ => AnyT::Arc(TensorBase::from_storage_and_layout(Arc::new(data), l)),
+                }
+            }
+            ("fsl", k, true) => {
+                let l = ok!(NdLayout::<2>::from_shape_and_strides(sh2, st2, OverlapPolicy::AllowOverlap));
+                match k {
+                    "vec" => AnyT::Vec(TensorBase::from_storage_and_layout(data, l).into_dyn()),
+                    "view" => AnyT::View(TensorBase::from_storage_and_layout((&buf[..len]).into_storage(), l).into_dyn()),
+                    "viewmut" => {
+                        AnyT::ViewMut(TensorBase::from_storage_and_layout((&mut bufm[..len]).into_storage(), l).into_dyn())
+                    }
+                    "cowb" => AnyT::Cow(
+                        TensorBase::from_storage_and_layout(CowData::Borrowed((&buf[..len]).into_storage()), l).into_dyn(),
+                        false,
+                    ),
+                    "cowo" => AnyT::Cow(TensorBase::from_storage_and_layout(CowData::Owned(data), l).into_dyn(), true),
+                    _ => AnyT::Arc(TensorBase::from_storage_and_layout(Arc::new(data), l).into_dyn()),
+                }
+            }
+            _ => return Err(()),
+        })
+    });
+    match r {
+        Ok(x) => x,
+        Err(_) => Err(()), // panic (failed assertion in from_storage_and_layout)
+    }
+}
+
+/// Conversions applicable to a storage kind (must match `OverlapCtor.convert`).
+fn convs_for(kind: &str) -> &'static [&'static str] {
+    match kind {
+        "vec" => &["into_cow", "into_arc", "to_tensor", "clone", "into_shape", "into_contiguous"],
+        "view" => &["to_tensor", "as_cow", "clone", "to_contiguous", "reshaped"],
+        "viewmut" => &["to_tensor"],
+        "cowb" | "cowo" => &["into_owned", "to_tensor"],
+        _ => &["to_tensor", "clone"],
+    }
+}
+
+fn convert<'a>(t: AnyT<'a>, conv: &str) -> AnyT<'a> {
+    match (conv, t) {
+        ("into_cow", AnyT::Vec(t)) => AnyT::Cow(t.into_cow(), true),
+        ("into_arc", AnyT::Vec(t)) => AnyT::Arc(t.into_arc()),
+        ("into_owned", AnyT::Cow(t, _)) => AnyT::Vec(t.into_owned()),
+        ("to_tensor", AnyT::Vec(t)) => AnyT::Vec(t.to_tensor()),
+        ("to_tensor", AnyT::View(t)) => AnyT::Vec(t.to_tensor()),
+        ("to_tensor", AnyT::ViewMut(t)) => AnyT::Vec(t.to_tensor()),
+        ("to_tensor", AnyT::Cow(t, _)) => AnyT::Vec(t.to_tensor()),
+        ("to_tensor", AnyT::Arc(t)) => AnyT::Vec(t.to_tensor()),
+        ("as_cow", AnyT::View(t)) => AnyT::Cow(t.as_cow(), false),
+        ("clone", AnyT::Vec(t)) => AnyT::Vec(t.clone()),
+        ("clone", AnyT::View(t)) => AnyT::View(t.clone()),
+        ("clone", AnyT::Arc(t)) => AnyT::Arc(t.clone()),
+        ("to_contiguous", AnyT::View(t)) => {
+            let c = t.to_contiguous().into_inner();
+            let owned = c.data_ptr() != t.data_ptr();
+            AnyT::Cow(c, owned)
+        }
+        ("reshaped", AnyT::View(t)) => {
+            let shape = t.shape().to_vec();
+            let c = t.reshaped(shape.as_slice());
+            let owned = c.data_ptr() != t.data_ptr();
+            AnyT::Cow(c, owned)
+        }
+        ("into_shape", AnyT::Vec(t)) => {
+            let shape = t.shape().to_vec();
+            AnyT::Vec(t.into_shape(shape.as_slice()))
+        }
+        ("into_contiguous", AnyT::Vec(t)) => AnyT::Vec(t.into_contiguous().into_inner()),
+        (c, t) => panic!("conversion {c} not applicable to {}", t.kind()),
+    }
+}
+
+fn dims_text(shape: &[usize], strides: &[usize]) -> String {
+    hcommon::join(shape.iter().zip(strides).map(|(a, b)| format!("{a},{b}")), " ")
+}
+
+/// Property oracle for one tensor on the path.
+fn storage_oracle(t: &AnyT, path: &str, fdws_accepted: bool) -> Option<String> {
+    let (sh, st) = t.dims();
+    let ov = may_have_internal_overlap(sh.as_slice(), st.as_slice());
+    let inj = brute_injective(&sh, &st);
+    if t.mutable() && (ov || inj == Some(false)) {
+        return Some(format!(
+            "mutable tensor ({}) with a layout that {}: {path} -> [{}]",
+            t.kind(),
+            if inj == Some(false) { "maps two valid indices to one offset" } else { "the overlap check rejects" },
+            dims_text(&sh, &st)
+        ));
+    }
+    if fdws_accepted && (ov || inj == Some(false)) {
+        return Some(format!(
+            "from_data_with_strides accepted an overlapping shape/strides pair on {} storage: {path}",
+            t.kind()
+        ));
+    }
+    None
+}
+
+fn storage_case(out: &mut Out, rng: &mut Rng) {
+    let nd = rng.chance(1, 3);
+    let rank = if nd { 2 } else { 1 + rng.usize_below(3) };
+    let shape: Vec<usize> = (0..rank).map(|_| 1 + rng.usize_below(4)).collect();
+    // strides: contiguous / permuted / stepped / broadcast / duplicated / arbitrary
+    let mut strides = vec![0usize; rank];
+    let mut p = 1usize;
+    for d in (0..rank).rev() {
+        strides[d] = p;
+        p *= shape[d];
+    }
+    let class = rng.below(6);
+    match class {
+        0 => {}
+        1 => {
+            let mut perm: Vec<usize> = (0..rank).collect();
+            rng.shuffle(&mut perm);
+            let s0 = strides.clone();
+            for d in 0..rank {
+                strides[d] = s0[perm[d]];
+            }
+            // sizes stay put, so this may or may not overlap
+        }
+        2 => {
+            let k = 1 + rng.usize_below(3);
+            for s in strides.iter_mut() {
+                *s *= k;
+            }
+        }
+        3 => {
+            let d = rng.usize_below(rank);
+            strides[d] = 0;
+        }
+        4 => {
+            let d = rng.usize_below(rank);
+            strides[d] = strides[rng.usize_below(rank)];
+        }
+        _ => {
+            for s in strides.iter_mut() {
+                *s = rng.usize_below(8);
+            }
+        }
+    }
+    out.bucket(["stor_contig", "stor_permuted", "stor_stepped", "stor_broadcast", "stor_dup", "stor_arbitrary"][class as usize]);
+    let min_len = 1 + shape.iter().zip(&strides).map(|(&n, &st)| (n - 1) * st).sum::<usize>();
+    let len = if rng.chance(1, 12) { min_len - 1 } else { min_len + rng.usize_below(3) };
+    let ctor = *rng.pick(&["fdws", "fdws", "fsl", "fsl", "fsws"]);
+    let kind = if ctor == "fsws" { "view" } else { *rng.pick(&KINDS) };
+    let data: Vec<u32> = (0..len as u32).collect();
+    let buf: Vec<u32> = (0..len as u32).collect();
+    let mut bufm: Vec<u32> = (0..len as u32).collect();
+    let head = format!(
+        "mk {ctor}{} {kind} {len} {}",
+        if nd { "_nd" } else { "" },
+        dims_text(&shape, &strides)
+    );
+    out.bucket(&format!("stor_ctor_{ctor}_{kind}"));
+    let overlapping = may_have_internal_overlap(shape.as_slice(), strides.as_slice());
+    let built = build(ctor, kind, nd, &shape, &strides, data, &buf, &mut bufm);
+    let mut t = match built {
+        Err(()) => {
+            out.bucket(if overlapping { "stor_rejected_overlapping" } else { "stor_rejected_other" });
+            out.case(&head, "rej", None, false);
+            return;
+        }
+        Ok(t) => t,
+    };
+    out.bucket(if overlapping { "stor_accepted_overlapping" } else { "stor_accepted_clean" });
+    let mut req = head.clone();
+    let mut fail = storage_oracle(&t, &req, ctor == "fdws");
+    let n_conv = rng.usize_below(5);
+    for _ in 0..n_conv {
+        let cs = convs_for(t.kind());
+        let c = *rng.pick(cs);
+        t = convert(t, c);
+        req += " | ";
+        req += c;
+        out.bucket(&format!("stor_conv_{c}"));
+        if fail.is_none() {
+            fail = storage_oracle(&t, &req, false);
+        }
+    }
+    if t.mutable() {
+        out.bucket("stor_final_mutable");
+    }
+    let (sh, st) = t.dims();
+    let ans = format!("ok {} {}", t.kind(), dims_text(&sh, &st));
+    out.case(&req, &ans, fail.as_deref(), overlapping || n_conv >= 2);
+    // terminal probe: AsView::as_cow (borrowed) -> into_owned is a copy
+    let copy = match &t {
+        AnyT::Vec(x) => x.as_cow().into_owned(),
+        AnyT::View(x) => x.as_cow().into_owned(),
+        AnyT::ViewMut(x) => x.as_cow().into_owned(),
+        AnyT::Cow(x, _) => x.as_cow().into_owned(),
+        AnyT::Arc(x) => x.as_cow().into_owned(),
+    };
+    let c = AnyT::Vec(copy);
+    if let Some(m) = storage_oracle(&c, &format!("{req} | as_cow | into_owned"), false) {
+        out.case("# storage", "probe", Some(&m), false);
+    }
+}
+
+/// Tensor-returning methods of `tensor.rs` in the tree under test (`cov` request).
+fn api_coverage(out: &mut Out) {
+    let repo = std::env::var("VERIF_REPO").unwrap_or_else(|_| "/repo".into());
+    let Ok(src) = std::fs::read_to_string(format!("{repo}/rten-tensor/src/tensor.rs")) else {
+        out.note("cov: tensor.rs not readable, coverage request skipped");
+        return;
+    };
+    let lines: Vec<&str> = src.lines().collect();
+    let mut names: Vec<String> = vec![];
+    for i in 0..lines.len() {
+        let l = lines[i].trim_start();
+        let l = l.strip_prefix("pub(crate) ").or_else(|| l.strip_prefix("pub ")).unwrap_or(l);
+        let l = l.strip_prefix("unsafe ").unwrap_or(l);
+        let Some(rest) = l.strip_prefix("fn ") else { continue };
+        let name: String = rest.chars().take_while(|c| c.is_ascii_alphanumeric() || *c == '_').collect();
+        let mut sig = String::new();
+        let mut j = i;
+        loop {
+            sig += lines[j];
+            sig.push(' ');
+            if lines[j].contains('{') || lines[j].trim_end().ends_with(';') || j >= i + 40 || j + 1 >= lines.len() {
+                break;
+            }
+            j += 1;
+        }
+        let sig = sig.split('{').next().unwrap_or("");
+        let Some((_, ret)) = sig.split_once("->") else { continue };
+        let ret = ret.split(" where ").next().unwrap_or("");
+        let plain_self = ret
+            .match_indices("Self")
+            .any(|(k, _)| !ret[k + 4..].starts_with("::") && !ret[..k].ends_with(|c: char| c.is_ascii_alphanumeric()));
+        if ret.contains("TensorBase<") || ret.contains("Contiguous<") || ret.contains("WeaklyCheckedView<") || plain_self {
+            names.push(name);
+        }
+    }
+    names.sort();
+    names.dedup();
+    out.bucket("api_coverage");
+    out.case(&format!("cov {}", names.join(" ")), "all-classified", None, false);
+}
+
 fn main() {
     let args = hcommon::parse_args();
     hcommon::quiet_panics();
@@ -577,5 +948,14 @@ fn run(args: &Args) {
             );
         }
     }
-    out.finish("exhaustive (size,stride) lists of rank<=3 with sizes 0..3 and small strides, plus random layouts derived from contiguous ones by permutation, stepping, broadcasting, stride perturbation, arbitrary strides; plus (completeness oracle) every intermediate view of random chains of 1..6 (thorough 1..10) real TensorView operations (permuted, transposed, move_axis, slice with ranges of step 1..4 / indices incl. negative spellings, slice_axis, index_axis, split_at, insert_axis, remove_axis, squeezed, merge_axes) applied to contiguous tensors of rank 0..5 (thorough 0..6), sizes 0..9, which must all be accepted; plus (capacity expansion) owned tensors of rank 1..4 (thorough 1..5) with spare capacity 0..200 built by from_data_with_strides (growth axis of size 0/1 with zero / unit / dominating / just-short / duplicate / random stride), by transposing / permuting / move_axis-ing from_data tensors with unit dims, and by with_capacity (optionally permuted), probed with has_capacity(axis, size+0..4) and append of zero-stride views, where every layout has_capacity or append accepts must pass the overlap check and brute-force injectivity; non-trivial = rank>=2, no empty dim, some dim >1; distinct by request text");
+    // (e) storage types × explicit constructors × storage conversions.
+    api_coverage(&mut out);
+    let n = if args.thorough { 400_000 } else { 40_000 };
+    for _ in 0..n {
+        if let Err(m) = hcommon::catch(|| storage_case(&mut out, &mut rng)) {
+            out.bucket("stor_panic");
+            out.case("# storage", "panic", Some(&format!("storage conversion panicked: {m}")), false);
+        }
+    }
+    out.finish("exhaustive (size,stride) lists of rank<=3 with sizes 0..3 and small strides, plus random layouts derived from contiguous ones by permutation, stepping, broadcasting, stride perturbation, arbitrary strides; plus (completeness oracle) every intermediate view of random chains of 1..6 (thorough 1..10) real TensorView operations (permuted, transposed, move_axis, slice with ranges of step 1..4 / indices incl. negative spellings, slice_axis, index_axis, split_at, insert_axis, remove_axis, squeezed, merge_axes) applied to contiguous tensors of rank 0..5 (thorough 0..6), sizes 0..9, which must all be accepted; plus (capacity expansion) owned tensors of rank 1..4 (thorough 1..5) with spare capacity 0..200 built by from_data_with_strides (growth axis of size 0/1 with zero / unit / dominating / just-short / duplicate / random stride), by transposing / permuting / move_axis-ing from_data tensors with unit dims, and by with_capacity (optionally permuted), probed with has_capacity(axis, size+0..4) and append of zero-stride views, where every layout has_capacity or append accepts must pass the overlap check and brute-force injectivity; plus (storage family) from_data_with_strides / from_slice_with_strides / from_storage_and_layout (dynamic rank 1..3 and NdLayout<2>) over Vec, &[T], &mut [T], Cow borrowed/owned and Arc<Vec> storage with contiguous / permuted-stride / stepped / broadcast / duplicate-stride / arbitrary layouts (sizes 1..4, exact / slack / short storage), followed by 0..4 storage conversions (into_cow, into_arc, into_owned, to_tensor, as_cow, clone, to_contiguous, reshaped, into_shape, into_contiguous), where every tensor on mutable storage must pass the overlap check and brute-force injectivity and from_data_with_strides must not accept an aliasing pair on any storage; one coverage request listing the tensor-returning methods of tensor.rs; non-trivial = rank>=2, no empty dim, some dim >1; distinct by request text");
 }
